@@ -84,5 +84,32 @@ theorem fillSample_tracked (s : Sampled) (order pairs : List (UInt64 × Int)) (h
     · exact Or.inl h
     · exact Or.inr (ho _ (List.mem_of_mem_take h))
 
+/-- `fill_sample` returns exactly as many pairs as the sample size allows: the input untouched when it is already
+    full, otherwise `min samples (input + enumerated)` — it never stops short while tracked pairs remain -/
+theorem fillSample_length (s : Sampled) (order pairs : List (UInt64 × Int)) :
+    (s.fillSample order pairs).length =
+      if pairs.length ≥ s.samples then pairs.length else min s.samples (pairs.length + order.length) := by
+  rw [fillSample_spec]
+  split
+  · rfl
+  · simp only [List.length_append, List.length_take]; omega
+
+/-- `fill_sample` returns its input first, unchanged -/
+theorem fillSample_prefix (s : Sampled) (order pairs : List (UInt64 × Int)) :
+    pairs <+: s.fillSample order pairs := by
+  rw [fillSample_spec]
+  split
+  · exact List.prefix_refl _
+  · exact List.prefix_append _ _
+
+/-- nothing is appended twice when the enumeration has no repetition -/
+theorem fillSample_appended_nodup (s : Sampled) (order pairs : List (UInt64 × Int)) (hn : order.Nodup) :
+    ((s.fillSample order pairs).drop pairs.length).Nodup := by
+  rw [fillSample_spec]
+  split
+  · simp
+  · simp only [List.drop_left]
+    exact hn.sublist (List.take_sublist _ _)
+
 example : (step (step (Sampled.new 100 5) (.inc 1 5)) (.inc 1 5)).roomLeft 0 = 95 := by decide
 end C20
